@@ -25,6 +25,9 @@ What the generator covers, against the quantifier of the property:
   random) and (b) is in a malformed class (`malformed`: an empty argument, an all-zero divisor / modulus / value, a
   scalar >= BITS of the first operand for a shift, any decoder / random call) is kept UNCONDITIONALLY (up to CAP per
   owner, sampled beyond), before the remaining budget is filled with the other cases.
+  An owner can also force cases into the C11 run by giving them a tag that starts with 'c11' (e.g. tags=('c11:keep',)):
+  use it for inputs whose only effect is a trap in ONE profile (an overflow-checked shift or subtraction on a rare
+  configuration: a modulus much shorter than the width, an unusual limb count).
   `dedicated` adds the classes no owner has: serde payloads shorter than the length field (empty, 1..7 bytes), decoders
   on the empty byte string at every width, checked division by zero at every route with the extreme dividends, the
   shift amounts around BITS and u32::MAX through every option-returning shift form at every width (fixed and boxed).
@@ -131,8 +134,10 @@ def gen(tier, rng):
                 zero_ok.add(c.rop)
             if len(c.args) == 2 and len(c.args[1]) == 1 and c.args[0] and c.args[1][0] >= U32MAX - 1:
                 over_ok.add(c.rop)
-        must = [c for c in sub if is_total(c) and malformed(c)]
-        rest = [c for c in sub if not (is_total(c) and malformed(c))]
+        def keep(c):
+            return (is_total(c) and malformed(c)) or any(t.startswith('c11') for t in c.tags)
+        must = [c for c in sub if keep(c)]
+        rest = [c for c in sub if not keep(c)]
         rng.shuffle(must); rng.shuffle(rest)
         must = must[:CAP[tier]]
         odd = [c for c in rest if malformed(c)]
